@@ -574,7 +574,7 @@ Section Forms.
   Proof.
     intros func params Hf. unfold compute_multi_autograd.
     apply k_bind.
-    - apply k_map_m. intros v _. eapply h_conseq; [apply h_create_grad_tensor | | |]; auto.
+    - apply k_map_m. intros v _. exact (h_create_grad_tensor s0 (Veq s0) v).
     - intros ts. apply k_bind; [apply Hf|]. intros y.
       destruct y; [apply k_fail | apply k_fail | | apply k_fail].
       destruct (negb (Nat.eqb size 1)); [apply k_fail|].
@@ -661,7 +661,13 @@ Qed.
 
 Lemma safe_form_copies : forall s0 fl autograd fm, ng_copies_input fl = true -> safe_form s0 fl autograd fm.
 Proof.
-  intros s0 fl autograd fm Hc. destruct fm; simpl; auto; try (right; intros); try intros; left; exact Hc.
+  intros s0 fl autograd fm Hc. destruct fm; simpl.
+  - right. intros. left. exact Hc.
+  - right. intros. left. exact Hc.
+  - intros. left. exact Hc.
+  - left. exact Hc.
+  - exact I.
+  - exact I.
 Qed.
 
 Theorem restore_full : forall fl autograd O fm s0 lg r s',
